@@ -205,6 +205,15 @@ def _normalize(*values: str, key: str) -> tuple[str, ...]:
     return values
 
 
+def _get_env(environment: dict[str, str], name: str) -> str:
+    try:
+        return environment[name]
+    except KeyError:
+        raise UndefinedEnvironmentName(
+            f"{name!r} does not exist in evaluation environment."
+        ) from None
+
+
 def _evaluate_markers(markers: MarkerList, environment: dict[str, str]) -> bool:
     groups: list[list[bool]] = [[]]
 
@@ -218,12 +227,12 @@ def _evaluate_markers(markers: MarkerList, environment: dict[str, str]) -> bool:
 
             if isinstance(lhs, Variable):
                 environment_key = lhs.value
-                lhs_value = environment[environment_key]
+                lhs_value = _get_env(environment, environment_key)
                 rhs_value = rhs.value
             else:
                 lhs_value = lhs.value
                 environment_key = rhs.value
-                rhs_value = environment[environment_key]
+                rhs_value = _get_env(environment, environment_key)
 
             lhs_value, rhs_value = _normalize(lhs_value, rhs_value, key=environment_key)
             groups[-1].append(_eval_op(lhs_value, op, rhs_value))
